@@ -130,13 +130,33 @@ def run(P, tier="quick"):
             R.ok("R31|%s|%s|through-is-line" % (FILE, th), PROPS)
     # ROWCOL-SAME-MAP
     fc = P.need_func("_vnacal_new_add_common", FILE)
+    # port maps by role, not by name: the caller's map is a local whose single definition is the vnaa_s_port_map member of
+    # the argument structure; its copies are local arrays filled from it by memcpy (the sorted copy is one of them)
+    _cn0 = Canon(fc)
+    port_maps = set()
+    for v_ in fc.vardecls():
+        if v_.kids and "vnaa_s_port_map" in _cn0.path(v_.kids[0]):
+            port_maps.add(v_.get("decl"))
+    for c_ in fc.calls("memcpy"):
+        a_ = c_.args()
+        if len(a_) >= 2:
+            srcs = [m for m in a_[1].walk() if m.k == "DeclRefExpr" and m.refdecl in port_maps]
+            dsts = [m for m in a_[0].walk() if m.k == "DeclRefExpr" and m.refkind == "local"]
+            if srcs and dsts:
+                port_maps.add(dsts[0].refdecl)
+    if not port_maps:
+        raise AnalysisBroken("_vnacal_new_add_common: the caller's port map (vnaa_s_port_map) is not read into a local")
+
+    def is_map(node):
+        node = node.strip()
+        return node.k == "DeclRefExpr" and node.refdecl in port_maps
     groups = {}
     for v in fc.vardecls():
         if not v.kids:
             continue
         e = v.kids[0].strip()
         if e.k == "BinaryOperator" and e.op == "-" and e.kids[0].strip().k == "ArraySubscriptExpr" and \
-                (e.kids[0].strip().kids[0].strip().refname or "").endswith("port_map"):
+                is_map(e.kids[0].strip().kids[0]):
             sub = e.kids[0].strip()
             outer = None
             for a_ in v.ancestors():
@@ -168,7 +188,7 @@ def run(P, tier="quick"):
         cond_maps = set()
         for (v, mp, idx, e) in items:
             for m_ in e.kids[0].walk():
-                if m_.k == "DeclRefExpr" and m_.refname and m_.refname.endswith("port_map"):
+                if m_.k == "DeclRefExpr" and m_.refname and m_.refdecl in port_maps:
                     cond_maps.add(m_.refname)
         if len(maps) == 1:
             R.ok(key, PROPS)
@@ -241,8 +261,10 @@ def run(P, tier="quick"):
     for n in fc.walk():
         if n.k == "ForStmt" and n.kids[4] is not None and any(
                 m.k == "BinaryOperator" and m.op == "=" and m.kids[0].strip().k == "ArraySubscriptExpr" and
-                m.kids[0].strip().kids[0].strip().refname == "port_connected" and
-                m.kids[0].strip().kids[1].strip().k == "BinaryOperator" for m in n.kids[4].walk()):
+                m.kids[0].strip().kids[0].strip().k == "DeclRefExpr" and m.kids[0].strip().kids[0].strip().refkind == "local" and
+                m.kids[0].strip().kids[1].strip().k == "BinaryOperator" and m.kids[0].strip().kids[1].strip().op == "-" and
+                m.kids[1].strip().cv not in (None, 0) for m in n.kids[4].walk()) and any(
+                m.k == "ArraySubscriptExpr" and is_map(m.kids[0]) for m in n.kids[4].walk()):
             vloop = n
     if vloop is None:
         raise AnalysisBroken("_vnacal_new_add_common: port-map validation loop (port_connected[port - 1] = true) not found")
@@ -262,7 +284,8 @@ def run(P, tier="quick"):
             if l.k == "BinaryOperator" and l.op == "<" and l.kids[0].strip().refdecl == ivar.refdecl and \
                     r.k == "BinaryOperator" and r.op == ">":
                 guards.append(l.kids[1])
-        elif c.k == "BinaryOperator" and c.op == ">" and "port" in c.kids[0].text():
+        elif c.k == "BinaryOperator" and c.op == ">" and c.kids[0].strip().k == "DeclRefExpr" and \
+                c.kids[0].strip().refkind == "local" and (c.kids[0].strip().ctype or "") == "int":
             unguarded += 1
     key = "R31|%s|_vnacal_new_add_common|portmap-range" % FILE
     if unguarded:
